@@ -465,6 +465,8 @@ def check(rep, F, tier, replay=None):
             continue
         rep.violation("ADDR-cast", k_, "lossy integer cast %s (%d site(s)) in address code, not in the audited inventory: a value read from the wire is narrowed before it is checked or used, so bytes that are not a valid address can be accepted as one and re-encoded differently" % (k_, n_), {})
     rep.floor("integer casts inspected in address code", 30, tot_)
+    from ruleutil import ser_filter_rule
+    ser_filter_rule(rep, F)
     return rep.finish(
         EXPLANATION,
         ["bech32 / base58 / CRC codecs are dependencies or value-level (not decided)", "the strict parsers never panic: C02"],
